@@ -108,7 +108,7 @@ def run(F, R, tier):
         if not p.startswith(PP) or H.body_of(g) is None or "::set_" not in p:
             continue
         # normal form: a shared `set_address_property(obj, Addr::from_str, |a| store, msg)` helper applied to its arguments
-        b = H.normal(F, H.body_of(g))
+        b = H.normal(F, H.body_of(g), keep=("from_str",))
         par = {}
         stack = [(b, None)]
         while stack:
